@@ -24,15 +24,23 @@ DFailed(d, r) ==
    \cup (IF /\ Failed(d, r, MuxObs(d, r, TRUE, TRUE)) = {}
             /\ HasOverride(d) \/ FailedFor("l", d, r, LegacyObs(d, r, TRUE, TRUE, TRUE, TRUE)) = {}
          THEN {} ELSE {"RepairedRefines"})
-   \cup (IF /\ Classified(d, r, "g", CurMuxObs(d, r))
+   \cup (IF /\ CurMuxBuilds(d) => Classified(d, r, "g", CurMuxObs(d, r))     \* (a router that is not built observes nothing)
             /\ Classified(d, r, "l", CurLegacyObs(d, r))
          THEN {} ELSE {"PinnedClassified"})
 
 (* (the "root" universe -- the template "/" -- is run against the code and judged by the contract; the        *)
 (* implementation-shaped models do not model the routers' handling of an empty template segment yet)      *)
+(* construction: the design that keeps host and path variable names apart builds a router for every document; *)
+(* the pinned one fails to exactly where the finding class says                                                *)
+DBuildFailed(d) ==
+   (IF MuxBuilds(d, TRUE, TRUE) THEN {} ELSE {"RepairedBuilds"})
+   \cup (IF CurMuxBuilds(d) \/ BuildClass(d, "g", "error") # "none" THEN {} ELSE {"PinnedBuildClassified"})
+   \cup (IF CurMuxBuilds(d) \/ SharedNames(d) # {} THEN {} ELSE {"PinnedBuildsWithoutSharedNames"})
+
 DesignOK ==
-   (Complete /\ kind # "root") => LET d == TheDoc IN
-               \A r \in Requests(d) :
+   (DesignScope /\ kind # "root") => LET d == TheDoc IN
+               /\ LET f == DBuildFailed(d) IN f = {} \/ (PrintT(<<"design check failed", f, d>>) /\ FALSE)
+               /\ \A r \in Requests(d) :
                   LET f == DFailed(d, r) IN
                   f = {} \/ (PrintT(<<"design check failed", f, r, d>>) /\ FALSE)
 
